@@ -215,6 +215,43 @@ def check_dpg(N, D, A, seed, fixed):
     return bad
 
 
+# ------------------------------------------------------------- TD7 (SALE)
+def check_td7_sale(N, D, A, seed, fixed):
+    """value AND gradient of the TD7 actor loss against the documented  -mean 0.5 (Q1 + Q2)(o, a, g(f(o), a), f(o)),
+    a = pi(o, f(o)), differentiated w.r.t. the actor only (reference written out here, jax autodiff of the reference)"""
+    from rl_blox.algorithm.td7 import deterministic_policy_gradient_loss_sale
+    from rl_blox.blox.embedding.sale import SALE, ActorSALE, CriticSALE
+
+    bad = []
+    Z, H = 4, 5
+    rng = np.random.default_rng(seed)
+    obs = jnp.asarray(rng.normal(size=(N, D)), dtype=jnp.float32)
+    emb = SALE(MLP(D, Z, [6], "tanh", nnx.Rngs(seed)), MLP(Z + A, Z, [6], "tanh", nnx.Rngs(seed + 1)))
+    actor = ActorSALE(MLP(H + Z, A, [6], "tanh", nnx.Rngs(seed + 2)), D, H, nnx.Rngs(seed + 3))
+    c1 = CriticSALE(MLP(H + 2 * Z, 1, [6], "tanh", nnx.Rngs(seed + 4)), D, A, H, nnx.Rngs(seed + 5))
+    c2 = CriticSALE(MLP(H + 2 * Z, 1, [6], "tanh", nnx.Rngs(seed + 6)), D, A, H, nnx.Rngs(seed + 7))
+    critic = ContinuousClippedDoubleQNet(c1, c2)
+
+    def ref(emb_, c1_, c2_, obs_, actor_):
+        zs = emb_.state_embedding(obs_)
+        a = actor_(obs_, zs)
+        zsa = emb_.state_action_embedding(jnp.concatenate((zs, a), axis=-1))
+        oa = jnp.concatenate((obs_, a), axis=-1)
+        return -jnp.mean(0.5 * (c1_(oa, zsa, zs) + c2_(oa, zsa, zs)))
+
+    lv, lg = nnx.value_and_grad(deterministic_policy_gradient_loss_sale, argnums=3)(emb, critic, obs, actor)
+    rv, rg = nnx.value_and_grad(ref, argnums=4)(emb, c1, c2, obs, actor)
+    if not close(float(lv), float(rv)):
+        bad.append(dict(function="deterministic_policy_gradient_loss_sale", N=N, got=float(lv), documented=float(rv)))
+    la, ra = jax.tree_util.tree_leaves(lg), jax.tree_util.tree_leaves(rg)
+    num_, den_ = sum(float(jnp.sum((x - y) ** 2)) for x, y in zip(la, ra)), sum(float(jnp.sum(y ** 2)) for y in ra)
+    rel = (num_ / den_) ** 0.5 if den_ > 0 else (0.0 if num_ == 0 else float("inf"))
+    if len(la) != len(ra) or rel > 1e-3:
+        bad.append(dict(function="deterministic_policy_gradient_loss_sale", N=N, clause="gradient w.r.t. the actor != gradient of the documented loss",
+                        relative_error=rel, loss_value=float(lv)))
+    return bad
+
+
 # ----------------------------------------------------------------------- SAC
 def check_sac(N, D, A, seed, fixed):
     from rl_blox.algorithm.sac import EntropyCoefficient, _update_entropy_coefficient, sac_actor_loss, sac_exploration_loss
@@ -262,7 +299,8 @@ CHECKS = [
     ("actor_critic_policy_gradient", check_pseudo),
     ("a2c_policy_gradient", check_pseudo),
     ("train_policy_a2c", check_pseudo),
-    ("deterministic_policy_gradient_loss_sale", None),
+    ("deterministic_policy_gradient_loss_sale", check_td7_sale),
+    ("td7_update_actor", check_td7_sale),
     ("deterministic_policy_gradient_loss", check_dpg),
     ("ddpg_update_actor", check_dpg),
     ("mse_value_loss", check_dpg),
